@@ -598,7 +598,29 @@ func nativeReplay(repo, scratch string, ov map[string][]byte, v *Violation) (boo
 			}
 		}
 	}
-	test := fmt.Sprintf("package %s\n\nimport \"testing\"\n\nvar vhHarnesses = map[string]func(a []int){\n%s}\n\nfunc TestVHReplay(t *testing.T) { vhReplayMain(t, vhHarnesses) }\n", pkgName, registry.String())
+	// the registry of harness entry points lives in a non-test overlay file; the test itself is an external test
+	// package so that it can import the API sub-packages (their init functions register the message types that
+	// the protocol-package harnesses need) without an import cycle
+	pkgPath := repoPath
+	if pkgDir != "." {
+		pkgPath += "/" + pkgDir
+	}
+	regSrc := fmt.Sprintf("package %s\n\nimport \"testing\"\n\nvar VHHarnesses = map[string]func(a []int){\n%s}\n\nfunc VHReplayMain(t *testing.T) { vhReplayMain(t, VHHarnesses) }\n", pkgName, registry.String())
+	regFile := filepath.Join(dir, "registry.go")
+	os.WriteFile(regFile, []byte(regSrc), 0o644)
+	repl[filepath.Join(repo, pkgDir, "zz_verif_registry.go")] = regFile
+	var extra strings.Builder
+	if pkgDir == "protocol" {
+		ents, _ := os.ReadDir(filepath.Join(repo, "protocol"))
+		for _, e := range ents {
+			if e.IsDir() && e.Name() != "prototest" {
+				if m, _ := filepath.Glob(filepath.Join(repo, "protocol", e.Name(), "*.go")); len(m) > 0 {
+					fmt.Fprintf(&extra, "\t_ %q\n", repoPath+"/protocol/"+e.Name())
+				}
+			}
+		}
+	}
+	test := fmt.Sprintf("package %s_test\n\nimport (\n\t\"testing\"\n\n\tvhpkg %q\n%s)\n\nfunc TestVHReplay(t *testing.T) { vhpkg.VHReplayMain(t) }\n", pkgName, pkgPath, extra.String())
 	real := filepath.Join(dir, "replay_test.go")
 	os.WriteFile(real, []byte(test), 0o644)
 	repl[filepath.Join(repo, pkgDir, "zz_verif_replay_test.go")] = real
